@@ -450,12 +450,18 @@ class RenderContext:
         if block_scope:
             ctx = self.__class__(
                 template or self.template,
-                globals=ReadOnlyChainMap(namespace, self.scope),
+                globals=ReadOnlyChainMap(namespace, self.globals),
                 disabled_tags=disabled_tags,
                 copy_depth=self._copy_depth + 1,
                 parent_context=self,
                 loop_iteration_carry=loop_iteration_carry,
                 local_namespace_size_carry=self.get_size_of_locals(),
+            )
+            # The block can read this context's scope, but that scope must not
+            # become part of the new context's globals, or templates rendered from
+            # inside the block (with `render`) would see our local variables.
+            ctx.scope = ReadOnlyChainMap(
+                ctx.locals, namespace, self.scope, ctx.counters
             )
             # This might need to be generalized so the caller can specify which
             # tag namespaces need to be copied.
